@@ -8,6 +8,7 @@ obligation), regions for the in-bounds obligations.
 Obligation kinds produced:  trap (ubsantrap / __assert_fail reachable), bounds (load/store/
 mem* outside every region), flag (nsw/nuw/exact/shift-amount side conditions: engine
 exactness), unwind (loop bound), and the contract's functional / frame `ensures`."""
+import os
 import z3
 
 from vlib.llvc import ir
@@ -80,6 +81,7 @@ class Encoder:
         self._ub = {}              # z3 ast id -> known bound on the magnitude of a fresh quotient
         self.cut_inv = None        # loop cutpoints: callback(header, phis) -> invariant (see _encode_body)
         self.cut_axioms = None     # definitional facts about spec functions instantiated at the havoc state
+        self.table_loads = []
         self.trip = None           # (loop ordinal, D): explore only executions whose loop #ordinal takes exactly D back edges
         self.trip_assumed = []     # the case hypothesis: conditions of the edges excluded by `trip`
         self.trip_cut = False      # a feasible back edge was excluded (so a case D+1 exists)
@@ -275,6 +277,16 @@ class Encoder:
         for (c, rg, off) in reversed(ptr.alternatives()):
             if rg is None:
                 continue
+            init = getattr(rg, "init", None)
+            if init is not None and not rg.writable and nbytes == 1:
+                self.table_loads.append((rg, off))         # witness terms for contracts (reads of constant tables)
+            if init is not None and not rg.writable and nbytes == 1 and len(init) <= 64 and os.environ.get("VERIF_TABLE_ITE", "0") == "1" and not z3.is_bv_value(z3.simplify(off)):
+                # small constant table read at a symbolic index: an explicit case analysis instead of array theory
+                b = bv(0, 8)
+                for i in reversed(range(len(init))):
+                    b = z3.If(off == bv(i, 64), bv(init[i], 8), b)
+                val = b if val is None else z3.If(c, b, val)
+                continue
             m, arr = self.region_array(m, rg)
             bs = [z3.Select(arr, off + bv(i, 64)) for i in range(nbytes)]
             v = z3.Concat(*reversed(bs)) if nbytes > 1 else bs[0]
@@ -469,6 +481,11 @@ class Encoder:
                                            z3.If(a >= 0, z3.And(r >= 0, r < C, q >= 0), z3.And(r <= 0, r > bv(-c, w), q <= 0))))
         self._ub[q.get_id()] = ub
         self._divs[key] = (a, q, r)
+        other = self._divs.get(("s" if sign == "u" else "u", a.get_id(), c))
+        if other is not None:
+            # the same operand divided as signed and as unsigned: for a non-negative operand both are the floor
+            # quotient (uniqueness of Euclidean division), stated so that the solver need not rediscover it
+            self.assumptions.append(z3.Implies(a >= 0, q == other[1]))
         return q, r
 
     def icmp(self, pred, t, a, b):
@@ -615,8 +632,11 @@ class Encoder:
         if self.trip is not None and self.depth == 0:
             tops = sorted([h for h in bodies if len(nests[h]) == 1], key=lambda h: ti[h])
             if self.trip[0] >= len(tops):
-                raise EncError("trip-count split: the function has no top-level loop #%d" % self.trip[0])
-            trip_hdr = tops[self.trip[0]]
+                if self.trip[1] != 0:
+                    raise EncError("trip-count split: the function has no top-level loop #%d" % self.trip[0])
+                # the optimiser unrolled the loop completely: one case, nothing to split
+            else:
+                trip_hdr = tops[self.trip[0]]
 
         def time_key(bn, counts):
             key = []
